@@ -75,7 +75,7 @@ FrameEntryFailing(ps, e) ==
 \* directly or through an ancestor contribute nothing (evaluated on small canvases only: cost)
 UncoveredFailing(ps, e) ==
   Chk("frame.uncovered_pixels_transparent",
-      (W(ps) * H(ps) <= 64 /\ Len(e.px) = W(ps) * H(ps)) =>
+      (SatMul(W(ps), H(ps)) <= 64 /\ Len(e.px) = W(ps) * H(ps)) =>
         LET ls == Contributing(ps, e.f)
             ds == [k \in DOMAIN ls |-> Drawn(ps, CelAt(ps, e.f, ls[k]))]
         IN \A i \in 1..(W(ps) * H(ps)) :
@@ -131,7 +131,7 @@ Failing(ps, obs) ==
   \cup Chk("tilesets", /\ Len(obs.tilesets) = Len(ps.tilesets) /\ obs.ntilesets = Len(ps.tilesets)
                        /\ obs.tilesets_empty = (ps.tilesets = <<>>)
                        /\ Range(obs.tilesets) = {TilesetObs(t) : t \in Range(ps.tilesets)})
-  \cup Chk("tileset_images", LET small == {t \in Range(ps.tilesets) : t.count * t.tw * t.th <= 65536} IN
+  \cup Chk("tileset_images", LET small == {t \in Range(ps.tilesets) : SatMul(t.count, SatMul(t.tw, t.th)) <= 65536} IN
                              /\ Len(obs.tileset_images) = Cardinality(small)
                              /\ Range(obs.tileset_images) = {TilesetImagesObs(ps, t, TRUE) : t \in small})
   \cup Chk("user_data.sprite", obs.sprite_ud = ps.spriteUD)
